@@ -11,8 +11,10 @@ import (
 	"os"
 	"path/filepath"
 	"strings"
+	"time"
 
 	"github.com/cossacklabs/acra/keystore/filesystem"
+	"github.com/cossacklabs/acra/keystore/v2/keystore/filesystem/backend"
 
 	"verif/harness/internal/ev"
 	"verif/harness/internal/rig/ksrig"
@@ -146,8 +148,178 @@ func runTamperV2(r *ev.Run, cfg config, realFiles bool) {
 			os.WriteFile(filepath.Join(g.dir, file), orig, 0o600)
 		}
 	}
+	t0 := time.Now()
+	n0 := r.Counter("c_byte_values_checked_v2")
+	runByteValuesV2(r, cfg, g, slots, content, realFiles)
+	fmt.Fprintf(os.Stderr, "TIMING byte values %s real=%v: %d loads in %v\n", cfg.name, realFiles, r.Counter("c_byte_values_checked_v2")-n0, time.Since(t0))
 	r.SampleN("c/"+cfg.name, 1, map[string]interface{}{"oracle": "c", "config": cfg.name, "real_files": realFiles, "rings": len(slots),
 		"example": fmt.Sprintf("%s.keyring (%d bytes): each byte flipped, OpenKeyRing + getter on a fresh handle", slots[1].path, len(content[slots[1].path+".keyring"]))})
+}
+
+// tamperBackend presents one stored v2 object with altered content (no call log: the byte-value sweep makes
+// millions of reads).
+type tamperBackend struct {
+	backend.Backend
+	path    string
+	data    []byte
+	noClose bool
+}
+
+func (t *tamperBackend) Get(path string) ([]byte, error) {
+	if t.path != "" && path == t.path {
+		return append([]byte{}, t.data...), nil
+	}
+	return t.Backend.Get(path)
+}
+
+func (t *tamperBackend) Close() error {
+	if t.noClose {
+		return nil
+	}
+	return t.Backend.Close()
+}
+
+// runByteValuesV2 is the byte-VALUE sweep of oracle (c): "any byte change to a stored key ring is detected when it
+// is read" (quantifier: "every single-byte modification of every stored file"). Single-bit flips do not reach
+// every value that matters to a DER reader (a length octet 0x20 becomes 0x10..0x1f only by changing two bits), so at
+// EVERY offset of every stored ring the byte is replaced by the values of byteValuesFor (quick: value-1, value+1,
+// value/2, 0x10..0x1f for 0x20, 0, 0x7f, 0x80, 0x81, 0xff; thorough: all 255 other values). Same oracle as the
+// bit-flip sweep: OpenKeyRing on a fresh handle must fail (every 8th offset also the getter), success is a violation
+// whether the readable content changed or not, a panic too. The changed byte is classified with classifyDER, the
+// signature names the DER element, the role of the byte in it (tag / length / content) and the direction of the change.
+func runByteValuesV2(r *ev.Run, cfg config, g *rig, slots []slot, content map[string][]byte, realFiles bool) {
+	tb := &tamperBackend{}
+	if cfg.dir {
+		b, err := backend.CreateDirectoryBackend(g.dir)
+		if err != nil {
+			r.Inconclusive("tamper v2 byte values: " + err.Error())
+			return
+		}
+		tb.Backend = b
+	} else {
+		tb.Backend, tb.noClose = g.mem, true
+	}
+	ks, err := ksrig.V2OnBackend(tb, g.v2keys)
+	if err != nil {
+		r.Inconclusive("tamper v2 byte values: " + err.Error())
+		return
+	}
+	defer ks.Close()
+	var fresh ksrig.FullKeyStore = ks
+	opener := fresh.(ringOpener)
+	thorough := r.Thorough()
+	var changed []byte
+	for si, s := range slots {
+		file := s.path + ".keyring"
+		orig := content[file]
+		if len(orig) == 0 {
+			r.Inconclusive("tamper v2 byte values: no stored bytes for " + file)
+			continue
+		}
+		tb.path = ""
+		refCur, _, refErr := ksrig.ModelCurrent(fresh, s.kind, s.id)
+		if _, err := opener.OpenKeyRing(s.path); err != nil {
+			r.Inconclusive(fmt.Sprintf("tamper v2 byte values: untouched ring %s does not open: %v", s.path, err))
+			continue
+		}
+		fields := classifyDER(orig, ringSchema)
+		r.SetAdd("c_byte_value_rings_enumerated", cfg.name+"|"+s.path)
+		// the length octet of the signature value: the byte whose lowering turns the tail of the MAC into trailing bytes
+		sigLenOff := -1
+		for off, f := range fields {
+			if f.field == fieldSignatureValue && f.part == "length" {
+				sigLenOff = off
+			}
+		}
+		if sigLenOff < 0 || orig[sigLenOff] != 0x20 {
+			r.Inconclusive(fmt.Sprintf("tamper v2 byte values: ring %s: no 32-byte %s found by the DER classifier", s.path, fieldSignatureValue))
+		}
+		var sigLenTried []string
+		sigLenRejected := 0
+		fieldBytes := map[string]int{}
+		for off := range orig {
+			f := fields[off]
+			region := ringRegion(orig, off)
+			fieldBytes[shortField(f.field)+" "+f.part]++
+			r.SetAdd("c_byte_value_fields_v2", shortField(f.field)+" "+f.part)
+			checkGetter := off%8 == 0
+			for _, bv := range byteValuesFor(orig[off], thorough) {
+				changed = append(changed[:0], orig...)
+				changed[off] = bv.v
+				if realFiles {
+					if err := os.WriteFile(filepath.Join(g.dir, file), changed, 0o600); err != nil {
+						r.Inconclusive("tamper v2 byte values: " + err.Error())
+						return
+					}
+				} else {
+					tb.path, tb.data = file, changed
+				}
+				var openErr, getErr error
+				var cur []byte
+				site, stack := guard(func() {
+					_, openErr = opener.OpenKeyRing(s.path)
+					if checkGetter || openErr == nil {
+						cur, _, getErr = ksrig.ModelCurrent(fresh, s.kind, s.id)
+					}
+				})
+				dir := changeDirection(orig[off], bv.v)
+				r.Case()
+				r.Count("c_byte_values_checked_v2", 1)
+				r.Count("c_byte_values_checked_v2_"+f.part+"_bytes", 1)
+				r.Count("c_byte_values_checked_v2_rule="+bv.rule, 1)
+				if f.part == "length" && orig[off] == 0x20 && bv.v >= 0x10 && bv.v <= 0x1f {
+					r.Count("c_length_bytes_0x20_lowered_to_0x10..0x1f_v2", 1)
+				}
+				detail := func() map[string]interface{} {
+					return map[string]interface{}{"config": cfg.name, "seed": r.Seed, "ring": s.path, "offset": off, "file_len": len(orig),
+						"from": fmt.Sprintf("0x%02x", orig[off]), "to": fmt.Sprintf("0x%02x", bv.v), "value_rule": bv.rule, "field": f.field, "byte": f.part, "region": region,
+						"real_files": realFiles, "original": ev.FullHex(orig), "stack": stack, "open_error": fmt.Sprint(openErr), "getter_error": fmt.Sprint(getErr)}
+				}
+				rejected := false
+				switch {
+				case site != "":
+					r.Violation(fmt.Sprintf("v2 byte-changed key ring: read panics at %s (field=%s byte=%s)", site, f.field, f.part), detail())
+				case openErr == nil:
+					class := "same-content"
+					if getErr != nil != (refErr != nil) || !bytes.Equal(cur, refCur) {
+						class = "different-content"
+					}
+					r.Violation(fmt.Sprintf("v2 key ring accepted after a single-byte change: field=%s byte=%s change=%s result=%s", f.field, f.part, dir, class), detail())
+				case checkGetter && getErr == nil:
+					r.Violation(fmt.Sprintf("v2 getter succeeds on a byte-changed key ring: field=%s byte=%s change=%s kind=%s", f.field, f.part, dir, s.kind), detail())
+				default:
+					rejected = true
+					r.Count("c_byte_values_rejected_v2", 1)
+				}
+				if off == sigLenOff {
+					r.Count("c_byte_values_checked_v2_signature_value_length_byte", 1)
+					res := "ACCEPTED"
+					if rejected {
+						sigLenRejected++
+						res = "rejected"
+					}
+					if len(sigLenTried) < 24 {
+						sigLenTried = append(sigLenTried, fmt.Sprintf("0x%02x:%s", bv.v, res))
+					}
+				}
+			}
+			r.Distinct(fmt.Sprintf("%s|c-bytes|%s|%s|%s", cfg.name, s.kind, shortField(f.field), f.part))
+		}
+		tb.path = ""
+		if realFiles {
+			os.WriteFile(filepath.Join(g.dir, file), orig, 0o600)
+		}
+		// the ring must read as before once the stored bytes are back
+		if _, err := opener.OpenKeyRing(s.path); err != nil {
+			r.Inconclusive(fmt.Sprintf("tamper v2 byte values: ring %s does not open after the sweep: %v", s.path, err))
+		}
+		if si < 2 {
+			r.SampleN("c-bytes/"+cfg.name, 2, map[string]interface{}{"oracle": "c (byte values)", "config": cfg.name, "real_files": realFiles, "ring": s.path + ".keyring",
+				"file_len": len(orig), "tier_values": map[bool]string{false: "value-1, value+1, value/2, 0x10..0x1f for 0x20, 0, 0x7f, 0x80, 0x81, 0xff", true: "all 255 other values"}[thorough],
+				"bytes_per_der_field": fieldBytes,
+				"signature_value_length_byte": map[string]interface{}{"offset": sigLenOff, "original": "0x20", "first_values_tried": sigLenTried, "rejected": sigLenRejected}})
+		}
+	}
 }
 
 // tamperStorage presents one file with altered content.
@@ -239,5 +411,6 @@ func runTamper(r *ev.Run) {
 		runTamperV1(r, configs[0])
 	}
 	r.RequireSetAtLeast("c_rings_enumerated", 18)
+	r.RequireSetAtLeast("c_byte_value_rings_enumerated", 18)
 	r.RequireSetAtLeast("c_v1_files_enumerated", 10)
 }
